@@ -1,6 +1,7 @@
 package c19
 
 import (
+	"bytes"
 	"fmt"
 	"os"
 	"path/filepath"
@@ -12,12 +13,13 @@ import (
 	"github.com/zerx-lab/wordZero/pkg/markdown"
 
 	"wzverif/internal/kit"
+	"wzverif/internal/opc"
 	"wzverif/internal/xmlwf"
 )
 
 func TestMain(m *testing.M) {
 	document.SetGlobalLevel(document.LogLevelSilent)
-	kit.TestMain(m, 3000, 20000)
+	kit.TestMain(m, 1800, 12000)
 }
 
 func convOpts(o Opts) *markdown.ConvertOptions {
@@ -88,7 +90,7 @@ func convert(res *kit.Result, c Case, src []byte) (doc *document.Document, saved
 			return doc, nil, false
 		}
 	}
-	checkPackage(res, saved, c.Entry)
+	checkPackage(res, saved, c.Entry, sampleConstant(src))
 	return doc, saved, true
 }
 
@@ -98,10 +100,15 @@ func runBytes(c Case) *kit.Result {
 	res.Label("kind:bytes")
 	res.Label("bytes:" + c.Cls)
 	res.Label("entry:" + c.Entry)
-	doc, _, _ := convert(res, c, src)
+	doc, saved, _ := convert(res, c, src)
 	n := 0
 	if doc != nil && doc.Body != nil {
 		n = len(doc.Body.Elements)
+	} else if c.Entry == "file" && saved != nil { // no in-memory document: count the body elements of the written part
+		if pkg, err := opc.Read(saved); err == nil {
+			d := pkg.Parts["word/document.xml"]
+			n = bytes.Count(d, []byte("<w:p>")) + bytes.Count(d, []byte("<w:p ")) + bytes.Count(d, []byte("<w:tbl>"))
+		}
 	}
 	// LaTeX -> OMML on the same string: must return, whatever the input
 	if len(src) <= 4096 {
@@ -113,7 +120,7 @@ func runBytes(c Case) *kit.Result {
 		}
 		res.Label("latex-api")
 	}
-	res.Nontrivial = n >= 1 || c.Entry == "file" && len(src) > 0
+	res.Nontrivial = n >= 1
 	var ks []string
 	for i, t := range c.Toks {
 		if i < 12 {
@@ -260,6 +267,11 @@ func runAST(c Case) *kit.Result {
 		return res
 	}
 	res.Label("judged")
+	if clean {
+		res.Label("judged:unmasked") // no block of the case is in the input class of any finding: every clause failure would be a violation
+	} else {
+		res.Label("judged:some-block-in-finding-class")
+	}
 	judge(res, exp, observe(doc), c.Opts.GFM && !c.Opts.Tables)
 
 	delete(bk, "task")
@@ -297,7 +309,7 @@ func TestC19(t *testing.T) {
 	}
 	kit.Main(t, kit.Spec[Case]{
 		ID: "C19", Level: "exploration",
-		Rule: "30% totality cases (random bytes, random UTF-8, Markdown token soup, one token repeated up to 1500x (thorough 6000x), huge pipe tables, unbalanced $, LaTeX soup; entry points ConvertBytes/ConvertString/ConvertFile) and 70% fidelity cases (Markdown AST of 1-7 (thorough 1-12) top-level blocks serialised canonically, words from a safe alphabet), each under a drawn combination of GFM/tables/task lists/math/footnotes/TOC/TOC level; a fidelity case is judged only if the AST reading equals the reading of goldmark's HTML (else discarded); about 1/4 of the fidelity cases carry one input class of an open finding. Non-trivial: fidelity = judged case with >=3 block kinds and >=2 inline kinds; totality = conversion produced >=1 body element. Distinct = option set + block/inline structure signature (fidelity) or class + first tokens + size bucket (totality)",
+		Rule: "about 35% totality cases (random bytes, random UTF-8, Markdown token soup, one token repeated up to 1500x (thorough 6000x), huge pipe tables, unbalanced $, LaTeX soup, slices of a document using every construct re-assembled with soup tokens; entry points ConvertBytes/ConvertString/ConvertFile; LaTeXToOMMLString on the same bytes) and 65% fidelity cases (Markdown AST of 1-7 (thorough 1-12) top-level blocks serialised canonically, words from a safe alphabet), each under a drawn combination of GFM/tables/task lists/math/footnotes/TOC/TOC level; a fidelity case is judged only if the AST reading equals the reading of goldmark's HTML (else discarded and counted); 3/4 of the fidelity cases are built only from forms outside every open finding's input class (label judged:unmasked), 1/4 carry one such class. Non-trivial: fidelity = judged case with >=3 block kinds and >=2 inline kinds; totality = conversion produced >=1 body element. Distinct = option set + block/inline structure signature (fidelity) or class + first tokens + size bucket (totality)",
 		Gen:  genCase, Run: run, Findings: findings, Fixed: fixedCases,
 		Assumptions: []string{
 			"the visible text of a document is the text of the runs of its body paragraphs and table cells, in body order; list bullets, numbers and check-box glyphs at the start of a list paragraph and the blank standing for an empty code line are not text",
@@ -306,8 +318,8 @@ func TestC19(t *testing.T) {
 			"formulas are judged for text only (plain alphanumeric content), not for formatting; the state of a task-list check box is not visible text",
 			"white space inside a block is compared after collapsing runs of blanks and line breaks to one blank; M1 ignores white space altogether",
 		},
-		MustSee: map[string]float64{"kind:bytes": 0.2, "kind:ast": 0.5, "ast:clean": 0.4, "judged": 0.5, "blk:tbl": 0.08, "blk:code-fenced": 0.1, "blk:code-indented": 0.05,
-			"blk:ul": 0.15, "blk:bq": 0.1, "blk:h": 0.15, "inl:em": 0.1, "inl:st": 0.1, "inl:code": 0.1, "inl:link": 0.1, "inl:sb": 0.1, "inl:del": 0.05, "blk:math": 0.03, "inl:math": 0.05,
-			"bytes:soup": 0.05, "bytes:deep": 0.02, "bytes:table": 0.02, "entry:file": 0.03},
+		MustSee: map[string]float64{"kind:bytes": 0.2, "kind:ast": 0.5, "judged": 0.45, "judged:unmasked": 0.3, "blk:tbl": 0.08, "blk:code-fenced": 0.1, "blk:code-indented": 0.04,
+			"blk:ul": 0.12, "blk:ol": 0.05, "blk:task": 0.04, "blk:bq": 0.08, "blk:h": 0.15, "blk:h-setext": 0.05, "blk:hr": 0.05, "inl:em": 0.1, "inl:st": 0.1, "inl:code": 0.1, "inl:link": 0.1, "inl:sb": 0.1, "inl:del": 0.05, "blk:math": 0.03, "inl:math": 0.05,
+			"bytes:soup": 0.05, "bytes:deep": 0.01, "bytes:table": 0.01, "bytes:dollar": 0.008, "bytes:splice": 0.03, "entry:file": 0.03},
 	})
 }
